@@ -17,17 +17,23 @@ package ct
 
 import (
 	"bytes"
+	"crypto/ecdsa"
+	"crypto/elliptic"
+	"crypto/rand"
 	"crypto/sha256"
 	"encoding/base64"
 	"encoding/json"
 	"fmt"
+	"math/big"
 	"reflect"
 	"strings"
 	"testing"
+	"time"
 
 	"github.com/google/certificate-transparency-go/internal/verifkit"
 	"github.com/google/certificate-transparency-go/tls"
 	"github.com/google/certificate-transparency-go/x509"
+	"github.com/google/certificate-transparency-go/x509/pkix"
 )
 
 var c04Lens = []int{0, 1, 2, 32, 255, 256, 257, 65535, 65536}
@@ -1144,6 +1150,172 @@ func (g *c04Gen) dsJSONCase(it int) {
 	}
 }
 
+// ---------------------------------------------------------------------------------------------- leaves from real chains
+
+// c04ChainLeaves: MerkleTreeLeafFromChain / MerkleTreeLeafFromRawChain / MerkleTreeLeafForEmbeddedSCT over real chains: an X.509
+// entry, a precertificate issued directly by the CA, and a precertificate issued by a Precertificate Signing Certificate
+// (CT EKU) — chain [precert, pre-issuer, CA], where RFC 6962 §3.2 takes issuer_key_hash from the *final* issuer, chain[2].
+// Oracle: the leaf is the hand-derived one (entry type, timestamp, SHA-256 of the final issuer's SPKI; the TBS has no poison /
+// SCT-list extension, names the final issuer, keeps serial, subject and key); the DER-chain variant and the parsed-chain variant
+// agree on every chain, errors included; the leaf encodes to what the RFC transcription gives (`S MerkleTreeLeaf` line).
+func (g *c04Gen) c04ChainLeaves(round int) {
+	key := func() *ecdsa.PrivateKey {
+		k, err := ecdsa.GenerateKey(elliptic.P256(), rand.Reader)
+		if err != nil {
+			panic(err)
+		}
+		return k
+	}
+	mk := func(tmpl, parent *x509.Certificate, pub *ecdsa.PublicKey, signer *ecdsa.PrivateKey) *x509.Certificate {
+		der, err := x509.CreateCertificate(rand.Reader, tmpl, parent, pub, signer)
+		if err != nil {
+			panic(err)
+		}
+		c, err := x509.ParseCertificate(der)
+		if err != nil {
+			panic(err)
+		}
+		return c
+	}
+	r := g.r
+	caKey, preKey, leafKey := key(), key(), key()
+	nb := time.Date(2024, 1, 1, 0, 0, 0, 0, time.UTC)
+	na := nb.AddDate(1, 0, 0)
+	caT := &x509.Certificate{SerialNumber: big.NewInt(int64(1 + r.Intn(1000))), Subject: pkix.Name{CommonName: fmt.Sprintf("verif ca %d", round)},
+		NotBefore: nb, NotAfter: na, IsCA: true, BasicConstraintsValid: true, KeyUsage: x509.KeyUsageCertSign, SubjectKeyId: g.bytes(4)}
+	ca := mk(caT, caT, &caKey.PublicKey, caKey)
+	piT := &x509.Certificate{SerialNumber: big.NewInt(2), Subject: pkix.Name{CommonName: "verif precert signing cert"}, NotBefore: nb, NotAfter: na,
+		IsCA: true, BasicConstraintsValid: true, KeyUsage: x509.KeyUsageCertSign,
+		ExtKeyUsage: []x509.ExtKeyUsage{x509.ExtKeyUsageCertificateTransparency}, SubjectKeyId: g.bytes(4)}
+	pi := mk(piT, ca, &preKey.PublicKey, caKey)
+	name := fmt.Sprintf("leaf%d.example.com", r.Intn(1000))
+	leafT := func(extra ...pkix.Extension) *x509.Certificate {
+		return &x509.Certificate{SerialNumber: big.NewInt(int64(3 + r.Intn(1<<30))), Subject: pkix.Name{CommonName: name}, NotBefore: nb, NotAfter: na,
+			DNSNames: []string{name}, ExtraExtensions: extra}
+	}
+	poison := pkix.Extension{Id: x509.OIDExtensionCTPoison, Critical: true, Value: []byte{0x05, 0x00}}
+	sctExt := pkix.Extension{Id: x509.OIDExtensionCTSCT, Value: append([]byte{0x04, 0x06}, rfcSCTList([][]byte{{1, 2}})...)}
+	extra := mk(leafT(), ca, &leafKey.PublicKey, caKey) // an unrelated certificate to pad chains with
+	type tc struct {
+		name   string
+		chain  []*x509.Certificate
+		etype  LogEntryType
+		ok     bool
+		issuer *x509.Certificate // final issuer (precert entries)
+	}
+	preDirect := mk(leafT(poison), ca, &leafKey.PublicKey, caKey)
+	preVia := mk(leafT(poison), pi, &leafKey.PublicKey, preKey)
+	plain := mk(leafT(), ca, &leafKey.PublicKey, caKey)
+	cases := []tc{
+		{"x509", []*x509.Certificate{plain, ca}, X509LogEntryType, true, nil},
+		{"x509-alone", []*x509.Certificate{plain}, X509LogEntryType, true, nil},
+		{"x509-long", []*x509.Certificate{plain, ca, extra, extra}, X509LogEntryType, true, nil},
+		{"precert-direct", []*x509.Certificate{preDirect, ca}, PrecertLogEntryType, true, ca},
+		{"precert-direct-long", []*x509.Certificate{preDirect, ca, extra, extra}, PrecertLogEntryType, true, ca},
+		{"precert-preissuer", []*x509.Certificate{preVia, pi, ca}, PrecertLogEntryType, true, ca},
+		{"precert-preissuer-long", []*x509.Certificate{preVia, pi, ca, extra}, PrecertLogEntryType, true, ca},
+		{"precert-no-issuer", []*x509.Certificate{preDirect}, PrecertLogEntryType, false, nil},
+		{"precert-preissuer-no-ca", []*x509.Certificate{preVia, pi}, PrecertLogEntryType, false, nil},
+		{"unknown-type", []*x509.Certificate{plain, ca}, LogEntryType(2 + r.Intn(100)), false, nil},
+	}
+	marshal := func(l *MerkleTreeLeaf) []byte {
+		b, ok, _ := c04Marshal(*l)
+		if !ok {
+			return nil
+		}
+		return b
+	}
+	checkTBS := func(key string, tbs []byte, from, issuer *x509.Certificate, dropped []int) {
+		c, err := x509.ParseTBSCertificate(tbs)
+		if err != nil {
+			g.out.Fail("chainleaf-tbs "+key, "the TBSCertificate of the leaf does not parse: "+err.Error())
+			return
+		}
+		for _, e := range c.Extensions {
+			if e.Id.Equal(x509.OIDExtensionCTPoison) || e.Id.Equal(x509.OIDExtensionCTSCT) {
+				g.out.Fail("chainleaf-tbs "+key, "the TBSCertificate of the leaf still carries extension "+e.Id.String())
+			}
+		}
+		if !bytes.Equal(c.RawIssuer, issuer.RawSubject) || c.SerialNumber.Cmp(from.SerialNumber) != 0 || !bytes.Equal(c.RawSubject, from.RawSubject) ||
+			!bytes.Equal(c.RawSubjectPublicKeyInfo, from.RawSubjectPublicKeyInfo) {
+			g.out.Fail("chainleaf-tbs "+key, "issuer / serial / subject / key of the leaf's TBSCertificate are not those of the final certificate")
+		}
+	}
+	for _, c := range cases {
+		g.out.Count("mode:leaf-from-chain")
+		ts := g.u64()
+		raw := make([]ASN1Cert, len(c.chain))
+		var lens []string
+		for i, x := range c.chain {
+			raw[i] = ASN1Cert{Data: x.Raw}
+			lens = append(lens, fmt.Sprint(len(x.Raw)))
+		}
+		key := fmt.Sprintf("%s etype=%d chainlen=%d certs=%s ts=%d", c.name, c.etype, len(c.chain), strings.Join(lens, "/"), ts)
+		var pl, rl *MerkleTreeLeaf
+		var perr, rerr error
+		if pan := verifkit.Guard(func() {
+			pl, perr = MerkleTreeLeafFromChain(c.chain, c.etype, ts)
+			rl, rerr = MerkleTreeLeafFromRawChain(raw, c.etype, ts)
+		}); pan != "" {
+			g.out.Fail("panic chainleaf "+key, pan)
+			continue
+		}
+		if (perr == nil) != c.ok {
+			g.out.Fail("chainleaf "+key, fmt.Sprintf("MerkleTreeLeafFromChain: err=%v, expected success=%v", perr, c.ok))
+			continue
+		}
+		if (rerr == nil) != (perr == nil) {
+			g.out.Fail("chainleaf-raw-vs-parsed "+key, fmt.Sprintf("MerkleTreeLeafFromRawChain err=%v but MerkleTreeLeafFromChain err=%v on the same chain", rerr, perr))
+			continue
+		}
+		if perr != nil {
+			continue
+		}
+		pb, rb := marshal(pl), marshal(rl)
+		if pb == nil || !bytes.Equal(pb, rb) {
+			g.out.Fail("chainleaf-raw-vs-parsed "+key, fmt.Sprintf("the two variants build different leaves: %s vs %s", hx(rb), hx(pb)))
+			continue
+		}
+		te := pl.TimestampedEntry
+		if pl.Version != V1 || pl.LeafType != TimestampedEntryLeafType || te == nil || te.Timestamp != ts || te.EntryType != c.etype || len(te.Extensions) != 0 {
+			g.out.Fail("chainleaf "+key, "version / leaf type / timestamp / entry type of the leaf are not what was asked for")
+			continue
+		}
+		if c.etype == X509LogEntryType {
+			if te.X509Entry == nil || te.PrecertEntry != nil || !bytes.Equal(te.X509Entry.Data, c.chain[0].Raw) {
+				g.out.Fail("chainleaf "+key, "the X.509 entry is not the submitted certificate")
+				continue
+			}
+		} else {
+			want := sha256.Sum256(c.issuer.RawSubjectPublicKeyInfo)
+			if te.PrecertEntry == nil || te.X509Entry != nil || te.PrecertEntry.IssuerKeyHash != want {
+				g.out.Fail("chainleaf "+key, "issuer_key_hash is not SHA-256 of the final issuer's SubjectPublicKeyInfo")
+				continue
+			}
+			checkTBS(key, te.PrecertEntry.TBSCertificate, c.chain[0], c.issuer, nil)
+		}
+		g.encodeCase("S MerkleTreeLeaf "+showLeaf(pl), *pl, true)
+	}
+	// a certificate with embedded SCTs and its issuer
+	withSCT := mk(leafT(sctExt), ca, &leafKey.PublicKey, caKey)
+	ts := g.u64()
+	el, err := MerkleTreeLeafForEmbeddedSCT([]*x509.Certificate{withSCT, ca}, ts)
+	ekey := fmt.Sprintf("embedded-sct certlen=%d ts=%d", len(withSCT.Raw), ts)
+	if err != nil || el.TimestampedEntry == nil || el.TimestampedEntry.PrecertEntry == nil {
+		g.out.Fail("chainleaf "+ekey, fmt.Sprintf("MerkleTreeLeafForEmbeddedSCT: %v", err))
+	} else {
+		te := el.TimestampedEntry
+		if te.EntryType != PrecertLogEntryType || te.Timestamp != ts || te.PrecertEntry.IssuerKeyHash != sha256.Sum256(ca.RawSubjectPublicKeyInfo) {
+			g.out.Fail("chainleaf "+ekey, "entry type / timestamp / issuer_key_hash of the leaf for an embedded SCT")
+		}
+		checkTBS(ekey, te.PrecertEntry.TBSCertificate, withSCT, ca, nil)
+		g.encodeCase("S MerkleTreeLeaf "+showLeaf(el), *el, true)
+	}
+	if _, err := MerkleTreeLeafForEmbeddedSCT([]*x509.Certificate{withSCT}, ts); err == nil {
+		g.out.Fail("chainleaf embedded-sct-no-issuer", "MerkleTreeLeafForEmbeddedSCT accepted a chain without issuer")
+	}
+}
+
 func TestVerifC04(t *testing.T) {
 	out := verifkit.Open()
 	defer out.Close()
@@ -1157,6 +1329,9 @@ func TestVerifC04(t *testing.T) {
 		g.sctListCase([][]byte{g.bytes(total - 2)})
 	}
 	g.sctListCase([][]byte{g.bytes(30000), g.bytes(30000), g.bytes(5394)}) // body 65400 in three SCTs
+	for round := 0; round < verifkit.N(3, 40); round++ {
+		g.c04ChainLeaves(round)
+	}
 	n := verifkit.N(1500, 120000)
 	for it := 0; it < n; it++ {
 		g.one(it)
